@@ -356,7 +356,7 @@ pub(crate) fn property_expr_weak(s: Span) -> IResult<Span, PropertyExpr> {
     let (s, b) = paren(sequence_expr)(s)?;
     Ok((
         s,
-        PropertyExpr::Strong(Box::new(PropertyExprStrong { nodes: (a, b) })),
+        PropertyExpr::Weak(Box::new(PropertyExprWeak { nodes: (a, b) })),
     ))
 }
 
